@@ -107,10 +107,21 @@ def assertion(B, out):
             v = names.index(nm)
             if R[v] is not None:
                 # a variable fixed by percolation that is kept: on a trap space its function is that constant
-                for vals, val in tab.items():
-                    if all(R[names.index(k)] is None or R[names.index(k)] == b for k, b in zip(rn, vals)):
-                        parts.append((f"{label}: kept constant {nm} has the value fixed by the space", B.const(bool(val) == bool(R[v]))))
+                # "an encoding over exactly the variables left free": a kept fixed variable is a CONSTANT of the result
+                # (on every state of the result network, not only inside the space)
+                parts.append((f"{label}: kept fixed variable {nm} is the constant {R[v]} of the percolated network",
+                              B.const(all(bool(val) == bool(R[v]) for val in tab.values()))))
                 continue
+            # ... and a free variable's function reads free variables only
+            fixed_pos = [i for i, k in enumerate(rn) if R[names.index(k)] is not None]
+            if fixed_pos:
+                proj = {}
+                dep = False
+                for vals, val in tab.items():
+                    key = tuple(b for i, b in enumerate(vals) if i not in fixed_pos)
+                    if proj.setdefault(key, val) != val:
+                        dep = True
+                parts.append((f"{label}: percolated function of free variable {nm} does not read a fixed variable", B.const(not dep)))
             for vals, val in tab.items():
                 x = list(0 if r is None else r for r in R)
                 ok = True
